@@ -24,6 +24,7 @@ RTOL = 1e-9
 CLAUSE_PROPERTY = {
     "PC_Order": None,
     "IF_Zero": "C05",
+    "IF_EmptyHistory": None,
     "RW_Iter": None,
     "RW_FirstZero": "C05",
     "RW_Monotone": "C05",
